@@ -11,6 +11,12 @@
     cls <variant> <bridge> <7 hdr fields> <flags> <hex frame>         -> ack | hit <hex> | noise | err <error tag>
          variant = a (as shipped: command byte only) | r (repaired: netFn + command, verified, only when bridged)
          bridge  = - (request not bridged) | <seq> (sequence number of the outstanding Send Message)
+  The ipmb-dev / Aardvark transports (Model/IpmbDevLoop.lean, the step models of C04; they do not bridge):
+    i2c <d|a> <refuse 0|1> <slave> <nextSeq> <routing> <rsSa> <netfn> <lun> <cmd> <hex payload> <ev>*
+    i2cprobe <d|a> <refuse 0|1> <slave> <nextSeq> <routing> <rsSa> <ev>*            (is_ipmc_accessible)
+         refuse = 1 (repaired: a routing of more than one hop raises NotSupportedError before anything is written)
+                | 0 (as shipped: Target.routing ignored);   ev = F<dt>:<hex> | I
+      -> <ok hex | error tag> seq=<n> sends=<n> tx=<hex|?>          (tx=? : nothing was written)
   Spec (PyIpmi.Spec.Bridges / Spec.Wire, the oracle):
     peel <n> <hex frame>             -> some <hop;hop;…|-> <hex inner> | none     hop = bridge:src:channel:tracking:seq
     parse <hex frame>                -> some <7 fields> <hex data> | none
@@ -23,6 +29,7 @@
 -/
 import PyIpmi.Base.Proto
 import PyIpmi.Model.Bridge
+import PyIpmi.Model.IpmbDevLoop
 import PyIpmi.Spec.Bridges
 open PyIpmi PyIpmi.Proto PyIpmi.Ipmb PyIpmi.Bridge PyIpmi.Spec.Wire PyIpmi.Spec.Bridges
 
@@ -74,9 +81,50 @@ def showClass : RxClass → String
 
 def showHop (h : Hop) : String := s!"{h.bridge}:{h.src}:{h.channel}:{h.tracking}:{h.seq}"
 
+def parseHops (s : String) : Option (List Loops.Hop) :=
+  if s == "-" then some []
+  else (s.splitOn ",").mapM fun t =>
+    match (t.splitOn ":").mapM String.toNat? with
+    | some [a, b, c] => some ⟨a, b, c⟩
+    | _ => none
+
+def parseI2cEv (s : String) : Option Loops.I2cEvent :=
+  if s == "I" then some .idle
+  else if s.startsWith "F" then
+    match (s.drop 1).toString.splitOn ":" with
+    | [a, b] => do
+      let a ← a.toNat?
+      let b ← ofHex b
+      pure (.frame a b)
+    | _ => none
+  else none
+
+def showStep (r : Loops.I2cStep) : String :=
+  let out := match r.out with
+    | .ok d => "ok " ++ toHex d
+    | e => e.tag
+  let tx := match r.tx with
+    | [] => "?"
+    | f :: _ => toHex f
+  s!"{out} seq={r.nextSeq} sends={r.tx.length} tx={tx}"
+
+def i2cCfgOf (kind : String) (rf : Bool) (slave : Nat) : Loops.I2cCfg :=
+  { (if kind == "d" then Loops.I2cCfg.ipmbdev else Loops.I2cCfg.aardvark) with refuseRouted := rf, slaveAddr := slave }
+
 def handleC09 (line : String) : String :=
   match tokens line with
   | ["ping"] => "pong"
+  | "i2c" :: kind :: rf :: slave :: seq :: rt :: rsSa :: netfn :: lun :: cmd :: pl :: evs =>
+    match [slave, seq, rsSa, netfn, lun, cmd].mapM String.toNat?, parseHops rt, ofHex pl, evs.mapM parseI2cEv with
+    | some [slave, seq, rsSa, netfn, lun, cmd], some rt, some pl, some evs =>
+      let req : Loops.Req := { rsSa := rsSa, netfn := netfn, lun := lun, cmd := cmd, payload := pl, routing := rt }
+      showStep (Loops.i2cRequest (i2cCfgOf kind (rf == "1") slave) seq req evs)
+    | _, _, _, _ => "bad-op"
+  | "i2cprobe" :: kind :: rf :: slave :: seq :: rt :: rsSa :: evs =>
+    match [slave, seq, rsSa].mapM String.toNat?, parseHops rt, evs.mapM parseI2cEv with
+    | some [slave, seq, rsSa], some rt, some evs =>
+      showStep (Loops.i2cProbe (i2cCfgOf kind (rf == "1") slave) true seq rsSa evs rt)
+    | _, _, _ => "bad-op"
   | ["snd", a, b, c, d, e, hx] =>
     match [a, b, c, d, e].mapM String.toNat?, ofHex hx with
     | some [rq, rs, ch, seq, tr], some p => showBytes9 (encodeSendMessage p rq rs ch seq tr)
